@@ -91,6 +91,12 @@ static Json::Value genC09(Rng& rng) {
     c["pids"] = pids;
     kids.push_back(c);
   }
+  // mixed kill preferences: the preference orders the classes, the plugin's
+  // eligibility filter still applies inside each of them
+  if (rng.chance(0.25))
+    for (auto& k : kids)
+      if (rng.chance(0.4))
+        k["xattrs"][rng.chance(0.5) ? "trusted.oomd_prefer" : "trusted.oomd_avoid"] = "1";
   // one sibling whose ranking statistic cannot be read: it is ranked as 0
   // ("reported as unavailable"), never by some other statistic
   if (rng.chance(0.2) && !kids.empty()) {
